@@ -87,6 +87,12 @@ func (w *world) canon(cnt simCounters) string {
 			}
 			sb.WriteString(") ")
 		}
+		if r.ldr != nil && (r.state != Leader || !r.ldr.transfer.inProgress()) {
+			// left-overs of a finished transfer (none in correct code): the raft loop keeps selecting on them
+			if t := &r.ldr.transfer; t.respCh != nil || t.timer.active || t.newTermTimer.active {
+				fmt.Fprintf(&sb, "xres(rc%v tt%v nt%v) ", t.respCh != nil, t.timer.active, t.newTermTimer.active)
+			}
+		}
 		if r.state == Follower {
 			// electionAborted lives in the follower struct local to stateLoop; its
 			// only effect (timer re-arm) is visible through timer.active
